@@ -6,7 +6,7 @@ ids="$@"
 [ -z "$ids" ] && ids=$(ls -d seeded/C*/ | xargs -n1 basename)
 for id in $ids; do
   [ -f seeded/$id/patch.diff ] || continue
-  /verif/scripts/run_seeded.sh /verif/seeded/$id/patch.diff $id > /tmp/recheck_$id.out 2>&1
+  /verif/scripts/run_seeded.sh /verif/seeded/$id/patch.diff ${id:0:3} > /tmp/recheck_$id.out 2>&1
   cp /tmp/recheck_$id.out seeded/$id/check_run.txt
   echo "$id: $(grep -c '^VIOLATION' /tmp/recheck_$id.out) violations; $(grep -o 'rc=[0-9]*' /tmp/recheck_$id.out | head -1)"
 done
